@@ -298,15 +298,15 @@ func replayPush(c *core.Ctx, lfsBin string, b *behaviour, idx int) (viol *core.V
 		var args []string
 		switch s.str("mode") {
 		case "git-push":
-			args = []string{"push", "origin"}
+			args = []string{"-c", fmt.Sprintf("lfs.allowincompletepush=%v", s["allow"] == true), "push", "origin"}
 			for _, d := range toStrings(s["deletes"]) {
 				args = append(args, ":"+d)
 			}
 			args = append(args, refs...)
 		case "lfs-push":
-			args = append([]string{"lfs", "push", "origin"}, refs...)
+			args = append([]string{"-c", fmt.Sprintf("lfs.allowincompletepush=%v", s["allow"] == true), "lfs", "push", "origin"}, refs...)
 		case "lfs-push-all":
-			args = []string{"lfs", "push", "--all", "origin"}
+			args = []string{"-c", fmt.Sprintf("lfs.allowincompletepush=%v", s["allow"] == true), "lfs", "push", "--all", "origin"}
 		}
 		w.logf("git %s", strings.Join(args, " "))
 		r := w.Env.RunIn(w.Clone, nil, nil, 120*time.Second, "git", args...)
@@ -335,7 +335,29 @@ func replayPush(c *core.Ctx, lfsBin string, b *behaviour, idx int) (viol *core.V
 		if len(afterAll) != len(after) {
 			return mk("server-content-valid", "the server stores an object whose bytes do not hash to its id"), nil
 		}
+		if amb, _ := s["ambiguous"].(bool); amb {
+			// objects the scan may or may not pick up are not on the server: this push may upload them, fail
+			// on them or pass them by - only the certain part is judged, and later predictions are void
+			if r.Code == 0 && s.str("verdict") != "fail" && !subset(toStrings(s["need"]), afterSet) && s.str("verdict") != "incomplete" {
+				return mk("objects-on-server-after-push", "push succeeded but a referenced object is not on the server"), nil
+			}
+			return nil, nil
+		}
 		switch s.str("verdict") {
+		case "incomplete":
+			// lfs.allowincompletepush: the push may go through without the objects nobody has, or fail; what
+			// the clone does have must reach the server when it goes through, and a failed push moves no ref
+			if r.Code == 0 {
+				for _, o := range toStrings(s["need"]) {
+					if toSet(before)[o] || toSet(w.LocalOids())[o] {
+						if !afterSet[o] {
+							return mk("available-objects-uploaded-by-incomplete-push", "an allowed incomplete push went through but left out "+o+", which the clone has"), nil
+						}
+					}
+				}
+			} else if s.str("mode") == "git-push" && fmt.Sprint(refsBefore) != fmt.Sprint(refsAfter) {
+				return mk("fail-before-refs", "push failed but a remote ref moved"), nil
+			}
 		case "ok":
 			if r.Code != 0 {
 				// with a file:// remote there is no batch API to learn that the remote already holds an
@@ -370,7 +392,7 @@ func replayPush(c *core.Ctx, lfsBin string, b *behaviour, idx int) (viol *core.V
 		if r.Code == 0 && !subset(toStrings(s["remoteNeeds"]), afterSet) {
 			return mk("remote-complete", "a commit reachable on the remote references an object the server does not hold"), nil
 		}
-		if s.str("verdict") == "either" {
+		if s.str("verdict") == "either" || s.str("verdict") == "incomplete" {
 			// the run took one of the two allowed branches; later predictions of the spec assume success
 			if r.Code != 0 {
 				return nil, nil
